@@ -12,6 +12,7 @@ import (
 	"log/slog"
 	"sort"
 	"strings"
+	"sync"
 	"testing"
 	"testing/synctest"
 	"time"
@@ -78,6 +79,82 @@ type Case struct {
 type loadProvider struct {
 	*mem.Alerts
 	onSubscribe func(snapshot []*types.Alert)
+
+	// tap on the subscription handed out last (the running inhibitor's): what was delivered on it
+	tapMu   sync.Mutex
+	tapN    int
+	tapLast *types.Alert
+}
+
+// tapIterator forwards an iterator's alerts and records them (so "every live subscriber receives every Put" can be
+// judged for the inhibitor's own subscription)
+type tapIterator struct {
+	inner provider.AlertIterator
+	ch    chan *provider.Alert
+	quit  chan struct{}
+	once  sync.Once
+}
+
+func (t *tapIterator) Next() <-chan *provider.Alert { return t.ch }
+func (t *tapIterator) Err() error                   { return t.inner.Err() }
+func (t *tapIterator) Close() {
+	t.once.Do(func() {
+		close(t.quit)
+		t.inner.Close()
+	})
+}
+
+func (p *loadProvider) tap(inner provider.AlertIterator) provider.AlertIterator {
+	t := &tapIterator{inner: inner, ch: make(chan *provider.Alert, 4096), quit: make(chan struct{})}
+	p.tapMu.Lock()
+	p.tapN, p.tapLast = 0, nil
+	p.tapMu.Unlock()
+	note := func(a *provider.Alert) {
+		p.tapMu.Lock()
+		p.tapN++
+		p.tapLast = a.Data
+		p.tapMu.Unlock()
+	}
+	// what is queued already (published while the subscriber was loading) is handed over synchronously, so that the
+	// subscriber finds it on its channel exactly as without the tap
+backlog:
+	for {
+		select {
+		case a, ok := <-inner.Next():
+			if !ok {
+				break backlog
+			}
+			note(a)
+			t.ch <- a
+		default:
+			break backlog
+		}
+	}
+	go func() {
+		for {
+			select {
+			case a, ok := <-inner.Next():
+				if !ok {
+					return
+				}
+				note(a)
+				select {
+				case t.ch <- a:
+				case <-t.quit:
+					return
+				}
+			case <-t.quit:
+				return
+			}
+		}
+	}()
+	return t
+}
+
+func (p *loadProvider) tapped() (int, *types.Alert) {
+	p.tapMu.Lock()
+	defer p.tapMu.Unlock()
+	return p.tapN, p.tapLast
 }
 
 func (p *loadProvider) SlurpAndSubscribe(name string) ([]*types.Alert, provider.AlertIterator) {
@@ -86,7 +163,7 @@ func (p *loadProvider) SlurpAndSubscribe(name string) ([]*types.Alert, provider.
 		p.onSubscribe = nil
 		f(snapshot)
 	}
-	return snapshot, it
+	return snapshot, p.tap(it)
 }
 
 func (p *loadProvider) Subscribe(name string) provider.AlertIterator {
@@ -101,7 +178,45 @@ func (p *loadProvider) Subscribe(name string) provider.AlertIterator {
 		p.onSubscribe = nil
 		f(snapshot)
 	}
-	return it
+	return p.tap(it)
+}
+
+// plainSub stands for the dispatcher: the second subscriber of every generation (the app starts the inhibitor and
+// then the dispatcher on every (re)load; both SlurpAndSubscribe)
+type plainSub struct {
+	mu   sync.Mutex
+	n    int
+	last *types.Alert
+	quit chan struct{}
+}
+
+func startPlainSub(prov *mem.Alerts) *plainSub {
+	ps := &plainSub{quit: make(chan struct{})}
+	_, it := prov.SlurpAndSubscribe("dispatcher")
+	go func() {
+		defer it.Close()
+		for {
+			select {
+			case a, ok := <-it.Next():
+				if !ok {
+					return
+				}
+				ps.mu.Lock()
+				ps.n++
+				ps.last = a.Data
+				ps.mu.Unlock()
+			case <-ps.quit:
+				return
+			}
+		}
+	}()
+	return ps
+}
+
+func (ps *plainSub) got() (int, *types.Alert) {
+	ps.mu.Lock()
+	defer ps.mu.Unlock()
+	return ps.n, ps.last
 }
 
 var mtypes = map[string]labels.MatchType{"=": labels.MatchEqual, "!=": labels.MatchNotEqual, "=~": labels.MatchRegexp, "!~": labels.MatchNotRegexp}
@@ -286,6 +401,13 @@ func genCase(r *vh.Rand, maxOps int) Case {
 		c.Lsets = append(c.Lsets, m)
 	}
 	n := r.Range(3, maxOps)
+	// lifecycle flavour: several generations of subscribers with provider GC ticks (which drop the closed
+	// subscribers of earlier generations) in between
+	lifecycleCase := r.Chance(1, 4)
+	if lifecycleCase {
+		c.ProviderGC = vh.Pick(r, []int64{int64(2 * time.Minute), int64(7 * time.Minute)})
+		n = r.Range(6, maxOps+4)
+	}
 	if r.Chance(1, 3) {
 		c.Pre = r.Range(1, 4)
 	}
@@ -323,7 +445,11 @@ func genCase(r *vh.Rand, maxOps int) Case {
 		if i == c.Pre && c.Pre > 0 {
 			c.StartPend = genPend()
 		}
-		switch k := r.Intn(20); {
+		k := r.Intn(20)
+		if lifecycleCase && k >= 11 && k < 17 && i >= c.Pre {
+			k = vh.Pick(r, []int{14, 17, 17}) // more reloads
+		}
+		switch {
 		case k < 14 || i < c.Pre:
 			genPut(&op, false)
 			putL = append(putL, op.L)
@@ -419,6 +545,11 @@ func runCase(t *testing.T, c *Case) result {
 		metrics := notify.NewMetrics(prometheus.NewRegistry(), featurecontrol.NoopFlags{})
 
 		var ih *inhibit.Inhibitor
+		var disp *plainSub // the dispatcher stand-in of the running generation
+		provT0 := time.Now().UnixNano()
+		generation, lifecycle := 0, false
+		fanoutBroken := false // the running inhibitor's subscription missed a Put in this generation
+		var ticksAtLastStart int64
 		var gcNext int64
 		lastUpd := map[int]*types.Alert{} // label set index -> latest stored update (what the inhibitor was sent)
 		loadPend := map[int]bool{}        // label set index -> its latest update was published while the running inhibitor was loading
@@ -577,6 +708,8 @@ func runCase(t *testing.T, c *Case) result {
 							}
 						}
 						switch {
+						case fanoutBroken:
+							key = "live-subscriber-missed-put"
 						case lostDuringLoad:
 							key = "update-during-load-lost"
 						case twoSidedFiring:
@@ -591,8 +724,11 @@ func runCase(t *testing.T, c *Case) result {
 					violate(key, fmt.Sprintf("%s at %s: %v is a target and a firing source with equal labels exists (e.g. label set #%d) but Mutes says false", opDesc, now.UTC().Format(time.RFC3339), ls, firstKey(witness)))
 				case !want && muted:
 					key := "inhibited-without-firing-source"
-					confused := false
-					if byIdx >= 0 {
+					confused := fanoutBroken
+					if fanoutBroken {
+						key = "live-subscriber-missed-put"
+					}
+					if byIdx >= 0 && !fanoutBroken {
 						// the reported inhibitor fires and is a source, but does not share the equal-label values
 						for _, s := range firing {
 							if fpIdx[s.Fingerprint()] != byIdx {
@@ -768,7 +904,17 @@ func runCase(t *testing.T, c *Case) result {
 			if lprov.onSubscribe != nil {
 				t.Fatalf("the inhibitor did not subscribe to the provider")
 			}
+			disp = startPlainSub(prov) // second subscriber of the generation, after the inhibitor, like the app
+			synctest.Wait()
 			now := nowNs()
+			generation++
+			fanoutBroken = false
+			provTicks := (now - provT0) / c.ProviderGC
+			lifecycle = generation >= 3 && provTicks > ticksAtLastStart // start, reload, provider GC, reload
+			if lifecycle {
+				res.tags["lifecycle:reload-after-provider-gc-after-earlier-reload"]++
+			}
+			ticksAtLastStart = provTicks
 			gcNext = now + gcInterval
 			firstGCAfterRestart = gcNext
 			res.tags["restart"]++
@@ -779,6 +925,7 @@ func runCase(t *testing.T, c *Case) result {
 		}
 		stop := func() {
 			ih.Stop()
+			close(disp.quit)
 			synctest.Wait()
 		}
 
@@ -818,6 +965,11 @@ func runCase(t *testing.T, c *Case) result {
 			switch op.Kind {
 			case "put":
 				a := mkAlert(op)
+				var tapN0, dispN0 int
+				if ih != nil {
+					tapN0, _ = lprov.tapped()
+					dispN0, _ = disp.got()
+				}
 				if err := prov.Put(ctx, a); err != nil {
 					t.Fatalf("Put: %v", err)
 				}
@@ -825,6 +977,20 @@ func runCase(t *testing.T, c *Case) result {
 				stored, err := prov.Get(a.Fingerprint())
 				if err != nil {
 					t.Fatalf("Get after Put: %v", err)
+				}
+				if ih != nil {
+					// every live subscriber receives every Put: exactly the stored version, exactly once
+					res.tags["deliveries-checked"]++
+					if lifecycle {
+						res.tags["lifecycle:put-after-reload-gc-reload"]++
+					}
+					if n, last := lprov.tapped(); n != tapN0+1 || last != stored {
+						fanoutBroken = true
+						violate("live-subscriber-missed-put", fmt.Sprintf("%s at %s (generation %d): the running inhibitor's subscription received %d alerts for this Put (want 1, the stored version)", desc, now.UTC().Format(time.RFC3339), generation, n-tapN0))
+					}
+					if n, last := disp.got(); n != dispN0+1 || last != stored {
+						violate("live-subscriber-missed-put", fmt.Sprintf("%s at %s (generation %d): the second subscriber (dispatcher stand-in) received %d alerts for this Put (want 1, the stored version)", desc, now.UTC().Format(time.RFC3339), generation, n-dispN0))
+					}
 				}
 				lastUpd[op.L] = stored
 				gcSince[op.L] = false
@@ -951,7 +1117,7 @@ func TestCheck(t *testing.T) {
 		// concurrent engine: real Puts of conflicting versions racing on all cores against a running inhibitor
 		judgeRace(t, run, racePlan(env))
 	}
-	if err := run.Finish("random rule sets (1-3 rules over sev/cluster/inst/zone, equal lists incl. labels missing on one side; one third of the cases: 2-3 equal labels with values that collide under concatenation) and histories of Put (fresh, refreshed with varied end times, resolved, no end), time passing (time-outs), inhibitor GC ticks, provider GC, inhibitor restarts, over 3-6 label sets sharing equal-values; after every op Mutes+marker for every label set, cache/index content, MuteStage; plus a judged concurrent engine outside synctest (2-4 goroutines Put conflicting versions of the same source alerts at once in large batches against a running inhibitor and plain subscribers, one slow; afterwards every subscriber's last delivered version is the stored one and the running inhibitor agrees with a fresh one loaded from the provider and with the rule over the provider's unresolved alerts); non-trivial = some label set muted and some not muted during the history; distinct by full history text"); err != nil {
+	if err := run.Finish("random rule sets (1-3 rules over sev/cluster/inst/zone, equal lists incl. labels missing on one side; one third of the cases: 2-3 equal labels with values that collide under concatenation) and histories of Put (fresh, refreshed with varied end times, resolved, no end), time passing (time-outs), inhibitor GC ticks, provider GC, restarts of the subscriber generation (inhibitor + a dispatcher-like second subscriber) with updates arriving during the load, subscriber lifecycles over several generations with provider GC in between, over 3-6 label sets sharing equal-values; after every op Mutes+marker for every label set, cache/index content, MuteStage; plus a judged concurrent engine outside synctest (2-4 goroutines Put conflicting versions of the same source alerts at once in large batches against a running inhibitor and plain subscribers, one slow; afterwards every subscriber's last delivered version is the stored one and the running inhibitor agrees with a fresh one loaded from the provider and with the rule over the provider's unresolved alerts); non-trivial = some label set muted and some not muted during the history; distinct by full history text"); err != nil {
 		t.Fatal(err)
 	}
 }
